@@ -36,6 +36,9 @@ class Gen:
         self.order = []
         self.functions = []     # extraction records
         self.lost_hints = []
+        self.lost_items = []    # (unit id, reason): extraction units that are not in the source (any more)
+        self.stubbed = []       # functions handed to Verus as external_body because their body is outside its reach
+        self.stub = set()
         self.dropped = []
         self.pins = []
 
@@ -53,10 +56,40 @@ class Gen:
         self.functions.append(r)
 
     def inj(self, sl, oid, mod, kw, kind='fn', make_pub=False):
-        text, lost = inject(sl, make_pub=make_pub, **kw)
+        if oid in self.stub:
+            # the body uses a construct Verus (or rustc on the generated crate) rejects: keep the contract as an *assumption*
+            # so that the rest of the file can be checked; the function itself counts as not verified
+            kw2 = {k: v for k, v in kw.items() if k in ('ret', 'contract')}
+            text, _ = inject(sl, make_pub=make_pub, **kw2)
+            ob = text.index('{', len(text) - len(sl.text[sl.text.index('{'):]) - 1) if False else None
+            head_end = text.rindex(sl.text[sl.text.index('{'):])
+            text = '#[verifier::external_body]\n' + text[:head_end] + '{ unimplemented!() }'
+            self.stubbed.append(oid)
+            self.rec(sl, oid, mod, kind, dropped='BODY NOT VERIFIED (stubbed as external_body)')
+            return text
+        try:
+            text, lost = inject(sl, make_pub=make_pub, **kw)
+        except AnchorLost as e:
+            # the loops the invariants belong to are gone: hand the function over with its contract only
+            kw2 = {k: v for k, v in kw.items() if k in ('ret', 'contract', 'entry', 'closures')}
+            self.lost_hints.append('%s: loop annotations dropped (%s)' % (oid, e))
+            try:
+                text, lost = inject(sl, make_pub=make_pub, **kw2)
+            except AnchorLost as e2:
+                kw3 = {k: v for k, v in kw.items() if k in ('ret', 'contract')}
+                self.lost_hints.append('%s: closure annotations dropped (%s)' % (oid, e2))
+                text, lost = inject(sl, make_pub=make_pub, **kw3)
         self.lost_hints += lost
         self.rec(sl, oid, mod, kind)
         return text
+
+    def unit(self, uid, f):
+        """run one extraction unit; a lost anchor loses that unit, not the whole file"""
+        try:
+            return f()
+        except AnchorLost as e:
+            self.lost_items.append((uid, str(e)))
+            return None
 
     # ------------------------------------------------------------------ impl blocks: every fn, contracted or not
     def impl_fns(self, src, impl_re):
@@ -95,7 +128,7 @@ class Gen:
             out.append(self.inj(sl, prefix + '::' + n, mod, kw, make_pub=True))
         for n in table:
             if n not in names:
-                raise AnchorLost('%s::%s' % (prefix, n))
+                self.lost_items.append((prefix + '::' + n, 'function is not in the source any more'))
         return header + ' {\n' + '\n\n'.join(out) + '\n}\n'
 
 
@@ -104,25 +137,25 @@ def derive_list(sl):
     return [x.strip() for x in m.group(1).split(',')] if m else []
 
 
-def build(repo, outdir):
+def build(repo, outdir, stub=()):
     g = Gen(repo)
+    g.stub = set(stub)
     LIB, RNG = g.lib, g.rng
     os.makedirs(outdir, exist_ok=True)
 
     # ---------------------------------------------------------------- root: types
     ident = item(LIB, r'^pub enum Identifier', 'enum Identifier')
     dl = derive_list(ident)
-    for need in ('PartialEq', 'Eq', 'PartialOrd', 'Ord'):
-        if need not in dl:
-            raise AnchorLost('derive(%s) on Identifier (a hand written impl is outside the derive model A6)' % need)
+    ident_handwritten = [t for t in ('PartialEq', 'PartialOrd', 'Ord') if t not in dl]
     strip_derive(ident, ('Clone',))
     g.rec(ident, 'type Identifier', 'root', 'type')
     ver = item(LIB, r'^pub struct Version', 'struct Version')
     vdl = derive_list(ver)
-    for bad in ('PartialEq', 'Eq', 'PartialOrd', 'Ord', 'Hash'):
-        if bad in vdl:
-            raise AnchorLost('derive(%s) on Version replaces a hand written impl under contract' % bad)
-    strip_derive(ver, ('Clone', 'Hash'))
+    # a derived impl on Version would be *trusted* by Verus against the hand written spec impls below: never let one through
+    bad_derives = tuple(b for b in ('PartialEq', 'Eq', 'PartialOrd', 'Ord', 'Hash') if b in vdl)
+    for b in bad_derives:
+        g.lost_items.append(('Version::' + {'PartialEq': 'eq', 'Eq': 'eq', 'PartialOrd': 'partial_cmp', 'Ord': 'cmp', 'Hash': 'hash'}[b], 'derive(%s) on Version replaces the hand written impl under contract' % b))
+    strip_derive(ver, ('Clone', 'Hash') + bad_derives)
     g.rec(ver, 'type Version', 'root', 'type')
     vdiff = item(LIB, r'^pub enum VersionDiff', 'enum VersionDiff')
     strip_derive(vdiff, ('Hash',))
@@ -182,6 +215,10 @@ impl PartialEqSpecImpl for Version { open spec fn obeys_eq_spec() -> bool { true
 impl PartialOrdSpecImpl for Version { open spec fn obeys_partial_cmp_spec() -> bool { true } open spec fn partial_cmp_spec(&self, other: &Self) -> Option<Ordering> { Some(ver_cmp(*self, *other)) } }
 impl OrdSpecImpl for Version { open spec fn obeys_cmp_spec() -> bool { true } open spec fn cmp_spec(&self, other: &Self) -> Ordering { ver_cmp(*self, *other) } }
 ''' % (idx, '\n'.join(pay))
+    if ident_handwritten:
+        # hand written ordering on Identifier: it has to meet the SemVer identifier order itself (no derive model)
+        derive_model = derive_model.replace('open spec fn eq_spec(&self, other: &Self) -> bool { derived_ident_cmp(*self, *other) == Ordering::Equal }', 'open spec fn eq_spec(&self, other: &Self) -> bool { ident_cmp(*self, *other) == Ordering::Equal }')
+        derive_model = derive_model.replace('Some(derived_ident_cmp(*self, *other))', 'Some(ident_cmp(*self, *other))').replace('open spec fn cmp_spec(&self, other: &Self) -> Ordering { derived_ident_cmp(*self, *other) }', 'open spec fn cmp_spec(&self, other: &Self) -> Ordering { ident_cmp(*self, *other) }')
     root.append(derive_model)
 
     # ---------------------------------------------------------------- m_order
@@ -190,44 +227,73 @@ impl OrdSpecImpl for Version { open spec fn obeys_cmp_spec() -> bool { true } op
 
     # ---------------------------------------------------------------- m_version
     V = K.VERSION
-    g.emit('m_version', 'impl Eq for Version {}\nimpl PartialEq for Version {\n' + g.inj(fn_in_impl(LIB, r'^impl PartialEq for Version \{', 'eq', 'Version::eq'), 'Version::eq', 'm_version', V['eq']) + '\n}')
-    g.emit('m_version', 'impl cmp::PartialOrd for Version {\n' + g.inj(fn_in_impl(LIB, r'^impl cmp::PartialOrd for Version \{', 'partial_cmp', 'Version::partial_cmp'), 'Version::partial_cmp', 'm_version', V['partial_cmp']) + '\n}')
-    g.emit('m_version', 'impl cmp::Ord for Version {\n' + g.inj(fn_in_impl(LIB, r'^impl cmp::Ord for Version \{', 'cmp', 'Version::cmp'), 'Version::cmp', 'm_version', V['cmp']) + '\n}')
+    if ident_handwritten:
+        for tr, fnn in (('PartialEq', 'eq'), ('PartialOrd', 'partial_cmp'), ('Ord', 'cmp')):
+            if tr in ident_handwritten:
+                def u(tr=tr, fnn=fnn):
+                    sl = fn_in_impl(LIB, r'^impl (?:cmp::|std::cmp::)?%s for Identifier \{' % tr, fnn, 'Identifier::' + fnn)
+                    g.emit('m_version', 'impl %s for Identifier {\n' % tr + g.inj(sl, 'Identifier::' + fnn, 'm_version', {}) + '\n}')
+                g.unit('Identifier::' + fnn, u)
+        if 'Eq' not in dl:
+            g.emit('m_version', 'impl Eq for Identifier {}')
+
+    def u_eq():
+        g.emit('m_version', 'impl Eq for Version {}\nimpl PartialEq for Version {\n' + g.inj(fn_in_impl(LIB, r'^impl PartialEq for Version \{', 'eq', 'Version::eq'), 'Version::eq', 'm_version', V['eq']) + '\n}')
+    g.unit('Version::eq', u_eq)
+
+    def u_pcmp():
+        g.emit('m_version', 'impl cmp::PartialOrd for Version {\n' + g.inj(fn_in_impl(LIB, r'^impl cmp::PartialOrd for Version \{', 'partial_cmp', 'Version::partial_cmp'), 'Version::partial_cmp', 'm_version', V['partial_cmp']) + '\n}')
+    g.unit('Version::partial_cmp', u_pcmp)
+
+    def u_cmp():
+        g.emit('m_version', 'impl cmp::Ord for Version {\n' + g.inj(fn_in_impl(LIB, r'^impl cmp::Ord for Version \{', 'cmp', 'Version::cmp'), 'Version::cmp', 'm_version', V['cmp']) + '\n}')
+    g.unit('Version::cmp', u_cmp)
     g.emit('m_version', P('diff_spec.rs'))
     g.emit('m_version', P('hash_model.rs'))
     tbl = {k: V[k] for k in ('is_prerelease', 'diff', 'satisfies')}
-    g.emit('m_version', g.impl_block(LIB, r'^impl Version \{', 'impl Version', tbl, 'Version', 'm_version', skip=('parse',)))
-    g.emit('m_version', 'impl std::hash::Hash for Version {\n' + g.inj(fn_in_impl(LIB, r'^impl std::hash::Hash for Version \{', 'hash', 'Version::hash'), 'Version::hash', 'm_version', V['hash']) + '\n}')
+    g.unit('impl Version', lambda: g.emit('m_version', g.impl_block(LIB, r'^impl Version \{', 'impl Version', tbl, 'Version', 'm_version', skip=('parse',))))
+
+    def u_hash():
+        g.emit('m_version', 'impl std::hash::Hash for Version {\n' + g.inj(fn_in_impl(LIB, r'^impl std::hash::Hash for Version \{', 'hash', 'Version::hash'), 'Version::hash', 'm_version', V['hash']) + '\n}')
+    g.unit('Version::hash', u_hash)
+
     # R3: macro instantiation for u64 (verified here); the signed instance used by literals is i32 (contract proved by Kani, C18)
-    mac = item(LIB, r'^macro_rules! impl_from_unsigned_for_version', 'macro impl_from_unsigned_for_version')
-    i0 = mac.verbatim.index('$(', mac.verbatim.index('=>'))
-    fbody = mac.verbatim[i0 + 2:mac.verbatim.rindex(')+')].replace('$t', 'u64')
-    mac.rewrites.append('R3 macro body instantiated for $t = u64')
-    fbody, n = re.subn(r'fn from\((\([a-z_, ]+\)): (\([a-z0-9, ]+\))\) -> Self \{', lambda m: f'fn from(arg: {m.group(2)}) -> (r: Self)\n ensures FROMENS{len(m.group(1).split(","))}\n {{\n let {m.group(1)} = arg;', fbody)
-    if n != 2:
-        raise AnchorLost('From impls inside impl_from_unsigned_for_version')
-    mac.rewrites.append('R2 tuple pattern parameter bound by `let` (2)')
-    fbody = fbody.replace('FROMENS3', 'key(r) == k3(arg.0 as int, arg.1 as int, arg.2 as int), r.build@.len() == 0')
-    fbody = fbody.replace('FROMENS4', 'key(r).major == arg.0, key(r).minor == arg.1, key(r).patch == arg.2, key(r).pre =~= seq![Identifier::Numeric(arg.3)], r.build@.len() == 0')
-    g.rec(mac, 'From<(u64,u64,u64[,u64])> for Version', 'm_version', 'macro-instance')
     g.emit('m_version', P('from_model.rs'))
-    g.emit('m_version', fbody)
+
+    def u_from():
+        mac = item(LIB, r'^macro_rules! impl_from_unsigned_for_version', 'macro impl_from_unsigned_for_version')
+        i0 = mac.verbatim.index('$(', mac.verbatim.index('=>'))
+        fbody = mac.verbatim[i0 + 2:mac.verbatim.rindex(')+')].replace('$t', 'u64')
+        mac.rewrites.append('R3 macro body instantiated for $t = u64')
+        fbody, n = re.subn(r'fn from\((\([a-z_, ]+\)): (\([a-z0-9, ]+\))\) -> Self \{', lambda m: f'fn from(arg: {m.group(2)}) -> (r: Self)\n ensures FROMENS{len(m.group(1).split(","))}\n {{\n let {m.group(1)} = arg;', fbody)
+        if n != 2:
+            raise AnchorLost('From impls inside impl_from_unsigned_for_version')
+        mac.rewrites.append('R2 tuple pattern parameter bound by `let` (2)')
+        fbody = fbody.replace('FROMENS3', 'key(r) == k3(arg.0 as int, arg.1 as int, arg.2 as int), r.build@.len() == 0')
+        fbody = fbody.replace('FROMENS4', 'key(r).major == arg.0, key(r).minor == arg.1, key(r).patch == arg.2, key(r).pre =~= seq![Identifier::Numeric(arg.3)], r.build@.len() == 0')
+        g.rec(mac, 'From<(u64,u64,u64[,u64])> for Version', 'm_version', 'macro-instance')
+        g.emit('m_version', fbody)
+    g.unit('Version::from@m_version', u_from)
 
     # ---------------------------------------------------------------- m_bound_spec / m_bound
     g.emit('m_bound_spec', P('bound_spec.rs'))
-    g.emit('m_bound', g.impl_block(RNG, r'^impl Predicate \{', 'impl Predicate', K.PREDICATE, 'Predicate', 'm_bound'))
-    g.emit('m_bound', g.impl_block(RNG, r'^impl Bound \{', 'impl Bound', K.BOUND, 'Bound', 'm_bound'))
-    g.emit('m_bound', 'impl Ord for Bound {\n' + g.inj(fn_in_impl(RNG, r'^impl Ord for Bound \{', 'cmp', 'Bound::cmp'), 'Bound::cmp', 'm_bound', K.BOUND_ORD['cmp']) + '\n}\nimpl PartialOrd for Bound {\n' + g.inj(fn_in_impl(RNG, r'^impl PartialOrd for Bound \{', 'partial_cmp', 'Bound::partial_cmp'), 'Bound::partial_cmp', 'm_bound', {}) + '\n}')
-    g.emit('m_bound', g.impl_block(RNG, r'^impl BoundSet \{', 'impl BoundSet', K.BOUNDSET, 'BoundSet', 'm_bound', pre=r1_split_or_guard))
-    # R9/R10: Display for BoundSet lifted to an inherent fn, write! stubbed
-    dsl = fn_in_impl(RNG, r'^impl fmt::Display for BoundSet \{', 'fmt', 'BoundSet::fmt (Display)')
-    t, n = re.subn(r'write!\(f, [^\n]*\),', 'verif_fmt_stub(f),', dsl.text)
-    if n == 0:
-        raise AnchorLost('write! arms of Display for BoundSet')
-    dsl.text = t.replace('fmt::', 'std::fmt::').replace('fn fmt(', 'fn display_fmt(')
-    dsl.rewrites += ['R9 trait method body lifted to inherent fn display_fmt', 'R10 write!(..) replaced by an opaque stub (%d)' % n]
+    g.unit('impl Predicate', lambda: g.emit('m_bound', g.impl_block(RNG, r'^impl Predicate \{', 'impl Predicate', K.PREDICATE, 'Predicate', 'm_bound')))
+    g.unit('impl Bound', lambda: g.emit('m_bound', g.impl_block(RNG, r'^impl Bound \{', 'impl Bound', K.BOUND, 'Bound', 'm_bound')))
+    g.unit('Bound::cmp', lambda: g.emit('m_bound', 'impl Ord for Bound {\n' + g.inj(fn_in_impl(RNG, r'^impl Ord for Bound \{', 'cmp', 'Bound::cmp'), 'Bound::cmp', 'm_bound', K.BOUND_ORD['cmp']) + '\n}'))
+    g.unit('Bound::partial_cmp', lambda: g.emit('m_bound', 'impl PartialOrd for Bound {\n' + g.inj(fn_in_impl(RNG, r'^impl PartialOrd for Bound \{', 'partial_cmp', 'Bound::partial_cmp'), 'Bound::partial_cmp', 'm_bound', {}) + '\n}'))
+    g.unit('impl BoundSet', lambda: g.emit('m_bound', g.impl_block(RNG, r'^impl BoundSet \{', 'impl BoundSet', K.BOUNDSET, 'BoundSet', 'm_bound', pre=r1_split_or_guard)))
     g.emit('m_bound', P('fmt_model.rs'))
-    g.emit('m_bound', 'impl BoundSet {\n' + g.inj(dsl, 'BoundSet::display_fmt', 'm_bound', dict(contract='    requires bs_wf(*self),'), make_pub=True) + '\n}')
+
+    def u_display():
+        # R9/R10: Display for BoundSet lifted to an inherent fn, write! stubbed
+        dsl = fn_in_impl(RNG, r'^impl fmt::Display for BoundSet \{', 'fmt', 'BoundSet::fmt (Display)')
+        t, n = re.subn(r'write!\(f, [^\n]*\),', 'verif_fmt_stub(f),', dsl.text)
+        if n == 0:
+            raise AnchorLost('write! arms of Display for BoundSet')
+        dsl.text = t.replace('fmt::', 'std::fmt::').replace('fn fmt(', 'fn display_fmt(')
+        dsl.rewrites += ['R9 trait method body lifted to inherent fn display_fmt', 'R10 write!(..) replaced by an opaque stub (%d)' % n]
+        g.emit('m_bound', 'impl BoundSet {\n' + g.inj(dsl, 'BoundSet::display_fmt', 'm_bound', dict(contract='    requires bs_wf(*self),'), make_pub=True) + '\n}')
+    g.unit('BoundSet::display_fmt', u_display)
 
     # ---------------------------------------------------------------- m_range_spec / m_range
     g.emit('m_range_spec', P('range_spec.rs'))
@@ -243,10 +309,11 @@ impl OrdSpecImpl for Version { open spec fn obeys_cmp_spec() -> bool { true } op
         if n == 1:
             sl.rewrites.append('R6 std iterator idiom routed through verif_std_filter_* (body = the original expression)')
             sl.text = t
-        # n == 0: the function no longer has that shape; it is handed to Verus as written
-    g.emit('m_range', g.impl_block(RNG, r'^impl Range \{', 'impl Range', K.RANGE, 'Range', 'm_range', skip=('parse',),
+        else:
+            g.lost_hints.append('%s: the `iter().filter(..).max()/min()` idiom (R6) is gone; the function is handed to Verus as written' % sl.what)
+    g.unit('impl Range', lambda: g.emit('m_range', g.impl_block(RNG, r'^impl Range \{', 'impl Range', K.RANGE, 'Range', 'm_range', skip=('parse',),
                                    per_fn={'max_satisfying': r6, 'min_satisfying': r6},
-                                   pre=lambda sl: setattr(sl, 'text', re.sub(r'^\s*#\[doc = include_str!\([^\n]*\n', '', sl.text, flags=re.M))))
+                                   pre=lambda sl: setattr(sl, 'text', re.sub(r'^\s*#\[doc = include_str!\([^\n]*\n', '', sl.text, flags=re.M)))))
 
     # ---------------------------------------------------------------- m_npm
     g.emit('m_npm', P('npm_spec.rs'))
@@ -255,43 +322,56 @@ impl OrdSpecImpl for Version { open spec fn obeys_cmp_spec() -> bool { true } op
     g.emit('m_npm', P('conj_spec.rs'))
 
     # ---------------------------------------------------------------- m_conj
-    g.emit('m_conj', g.inj(top_fn(RNG, 'intersect_all'), 'intersect_all', 'm_conj', K.INTERSECT_ALL, make_pub=True))
-    # plumbing pin (R5): range() maps exactly this function over the separated comparator list
-    rng_fn = top_fn(RNG, 'range').verbatim
-    if not re.search(r'separated\(0\.\., simple, space1\),\s*\|bs: Vec<Option<BoundSet>>\| intersect_all\(&bs\),', rng_fn):
-        raise AnchorLost('range(): `Parser::map(separated(0.., simple, space1), |bs| intersect_all(&bs))`')
-    g.pins.append('range() = Parser::map(separated(0.., simple, space1), |bs| intersect_all(&bs))')
+    def u_conj():
+        sl = top_fn(RNG, 'intersect_all')
+        # plumbing pin (R5): range() maps exactly this function over the separated comparator list
+        rng_fn = top_fn(RNG, 'range').verbatim
+        if not re.search(r'separated\(0\.\., simple, space1\),\s*\|bs: Vec<Option<BoundSet>>\| intersect_all\(&bs\),', rng_fn):
+            raise AnchorLost('range(): `Parser::map(separated(0.., simple, space1), |bs| intersect_all(&bs))`')
+        g.pins.append('range() = Parser::map(separated(0.., simple, space1), |bs| intersect_all(&bs))')
+        g.emit('m_conj', g.inj(sl, 'intersect_all', 'm_conj', K.INTERSECT_ALL, make_pub=True))
+    g.unit('intersect_all', u_conj)
 
     # ---------------------------------------------------------------- m_desugar
     g.emit('m_desugar', P('desugar_model.rs'))
-    g.emit('m_desugar', g.impl_block(RNG, r'^impl Partial \{', 'impl Partial', {'normalize': K.PARTIAL_NORMALIZE}, 'Partial', 'm_desugar'))
-    g.emit('m_desugar', 'impl From<Partial> for Version {\n' + g.inj(fn_in_impl(RNG, r'^impl From<Partial> for Version \{', 'from', 'From<Partial> for Version'), 'Version::from(Partial)', 'm_desugar', K.FROM_PARTIAL) + '\n}')
-    pv = top_fn(RNG, 'partial_version').verbatim
-    if not re.search(r'Ok\(Partial \{[^}]*\}\s*\.normalize\(\)\)\s*\}\s*$', pv, re.S) or len(re.findall(r'PResult<Partial,', RNG.text)) != 1:
-        raise AnchorLost('partial_version(): the only parser producing a Partial, ending in `Ok(Partial { .. }.normalize())`')
-    g.pins.append('partial_version() returns Partial{..}.normalize() and is the only constructor of Partial')
+
+    def u_norm():
+        blk = g.impl_block(RNG, r'^impl Partial \{', 'impl Partial', {'normalize': K.PARTIAL_NORMALIZE}, 'Partial', 'm_desugar')
+        pv = top_fn(RNG, 'partial_version').verbatim
+        if not re.search(r'Ok\(Partial \{[^}]*\}\s*\.normalize\(\)\)\s*\}\s*$', pv, re.S) or len(re.findall(r'PResult<Partial,', RNG.text)) != 1:
+            raise AnchorLost('partial_version(): the only parser producing a Partial, ending in `Ok(Partial { .. }.normalize())`')
+        g.pins.append('partial_version() returns Partial{..}.normalize() and is the only constructor of Partial')
+        g.emit('m_desugar', blk)
+    g.unit('Partial::normalize', u_norm)
+    g.unit('Version::from@m_desugar', lambda: g.emit('m_desugar', 'impl From<Partial> for Version {\n' + g.inj(fn_in_impl(RNG, r'^impl From<Partial> for Version \{', 'from', 'From<Partial> for Version'), 'Version::from@m_desugar', 'm_desugar', K.FROM_PARTIAL) + '\n}'))
 
     def lifted(name, sig, grid, sl, hint=K.DESUGAR_HINT, tail='', head=''):
         sl.rewrites.append('R5 closure body lifted into fn ' + name)
+        if name in g.stub:
+            g.stubbed.append(name)
+            g.rec(sl, name, 'm_desugar', 'closure', dropped='BODY NOT VERIFIED (stubbed as external_body)')
+            return '#[verifier::external_body]\npub fn ' + name + sig + '\n' + '\n'.join(grid) + '\n{ unimplemented!() }\n'
         g.rec(sl, name, 'm_desugar', 'closure', dropped='winnow combinator call around the closure (Parser::map / context / parse_next)')
         return 'pub fn ' + name + sig + '\n' + '\n'.join(grid) + '\n' + hint + head + sl.text + tail + '\n}\n'
-    caret_m = closure_match(RNG, 'caret', '|parsed| match parsed', 'closure in caret()')
-    g.emit('m_desugar', lifted('caret_desugar', '(parsed: Partial) -> (r: Option<BoundSet>)', K.grid_caret(), caret_m))
-    partial_m = closure_match(RNG, 'partial', '|partial| match partial', 'closure in partial()')
-    g.emit('m_desugar', lifted('partial_desugar', '(partial: Partial) -> (r: Option<BoundSet>)', K.grid_partial(), partial_m))
-    tilde_m = closure_match(RNG, 'tilde', '|parsed| match parsed', 'closure in tilde()')
-    g.emit('m_desugar', lifted('tilde_desugar', '(parsed: (Option<&str>, Partial)) -> (r: Option<BoundSet>)', K.grid_tilde(), tilde_m))
+    g.unit('caret_desugar', lambda: g.emit('m_desugar', lifted('caret_desugar', '(parsed: Partial) -> (r: Option<BoundSet>)', K.grid_caret(), closure_match(RNG, 'caret', '|parsed| match parsed', 'closure in caret()'))))
+    g.unit('partial_desugar', lambda: g.emit('m_desugar', lifted('partial_desugar', '(partial: Partial) -> (r: Option<BoundSet>)', K.grid_partial(), closure_match(RNG, 'partial', '|partial| match partial', 'closure in partial()'))))
+    g.unit('tilde_desugar', lambda: g.emit('m_desugar', lifted('tilde_desugar', '(parsed: (Option<&str>, Partial)) -> (r: Option<BoundSet>)', K.grid_tilde(), closure_match(RNG, 'tilde', '|parsed| match parsed', 'closure in tilde()'))))
     for op in K.OPS:
-        prim_m = closure_match(RNG, 'primitive', '|parsed| match parsed', 'closure in primitive()')
-        prim_m.rewrites.append('checked once per operator (requires parsed.0 == Operation::%s)' % op)
-        g.emit('m_desugar', lifted('primitive_desugar_' + op, '(parsed: (Operation, Partial)) -> (r: Option<BoundSet>)', K.grid_primitive(op), prim_m,
-                                   hint=K.DESUGAR_HINT_LE if op == 'LessThanEquals' else K.DESUGAR_HINT, head='use Operation::*;\n'))
-    hy = between(RNG, 'hyphen', 'let upper = match upper', 'Ok(bounds)', 'block in hyphen::parser')
-    g.emit('m_desugar', lifted('hyphen_desugar', '(lower: Option<Partial>, upper: Partial) -> (r: Option<BoundSet>)', K.grid_hyphen(), hy, tail='\n bounds'))
-    hyf = top_fn(RNG, 'hyphen').verbatim
-    if not re.search(r'let lower = opt\(partial_version\)\.parse_next\(input\)\?;.*?let upper = partial_version\(input\)\?;\s*let upper = match upper', hyf, re.S):
-        raise AnchorLost('hyphen::parser: lower = opt(partial_version), upper = partial_version')
-    g.pins.append('hyphen::parser: lower = opt(partial_version), upper = partial_version, result Ok(bounds)')
+        def u_prim(op=op):
+            prim_m = closure_match(RNG, 'primitive', '|parsed| match parsed', 'closure in primitive()')
+            prim_m.rewrites.append('checked once per operator (requires parsed.0 == Operation::%s)' % op)
+            g.emit('m_desugar', lifted('primitive_desugar_' + op, '(parsed: (Operation, Partial)) -> (r: Option<BoundSet>)', K.grid_primitive(op), prim_m,
+                                       hint=K.DESUGAR_HINT_LE if op == 'LessThanEquals' else K.DESUGAR_HINT, head='use Operation::*;\n'))
+        g.unit('primitive_desugar_' + op, u_prim)
+
+    def u_hyphen():
+        hy = between(RNG, 'hyphen', 'let upper = match upper', 'Ok(bounds)', 'block in hyphen::parser')
+        hyf = top_fn(RNG, 'hyphen').verbatim
+        if not re.search(r'let lower = opt\(partial_version\)\.parse_next\(input\)\?;.*?let upper = partial_version\(input\)\?;\s*let upper = match upper', hyf, re.S):
+            raise AnchorLost('hyphen::parser: lower = opt(partial_version), upper = partial_version')
+        g.pins.append('hyphen::parser: lower = opt(partial_version), upper = partial_version, result Ok(bounds)')
+        g.emit('m_desugar', lifted('hyphen_desugar', '(lower: Option<Partial>, upper: Partial) -> (r: Option<BoundSet>)', K.grid_hyphen(), hy, tail='\n bounds'))
+    g.unit('hyphen_desugar', u_hyphen)
 
     # ---------------------------------------------------------------- m_props / m_canary
     g.emit('m_props', P('props.rs'))
@@ -320,6 +400,8 @@ impl OrdSpecImpl for Version { open spec fn obeys_cmp_spec() -> bool { true } op
         'functions': g.functions,
         'clauses': clauses,
         'lost_hints': g.lost_hints,
+        'lost_items': g.lost_items,
+        'stubbed': g.stubbed,
         'dropped': g.dropped,
         'pins': g.pins,
         'trusted': trusted,
@@ -376,4 +458,4 @@ if __name__ == '__main__':
     except AnchorLost as e:
         print('ANCHOR-LOST:', e)
         sys.exit(2)
-    print('generated', meta['file'], 'functions', len(meta['functions']), 'clauses', len(meta['clauses']), 'lost hints', meta['lost_hints'])
+    print('generated', meta['file'], 'functions', len(meta['functions']), 'clauses', len(meta['clauses']), 'lost hints', meta['lost_hints'], 'lost items', meta['lost_items'])
